@@ -55,6 +55,13 @@ func Scenarios(info *CaseInfo, families []string, thorough bool) []Scenario {
 			if thorough {
 				max = 0
 			}
+			if info.POR {
+				// large shapes: every single failing provider (quick), every pair too (thorough)
+				max = 1
+				if thorough {
+					max = 2
+				}
+			}
 			for _, s := range subsets(fallible, max) {
 				out = append(out, Scenario{Name: "fault:" + strings.Join(s, ","), Fail: s})
 			}
@@ -82,6 +89,7 @@ func Main() {
 	max := flag.Int("max", 200000, "execution cap per case and scenario")
 	thorough := flag.Bool("thorough", false, "thorough tier (all fault subsets)")
 	only := flag.String("only", "", "run only this package id")
+	por := flag.String("por", "off", "off: state-caching search over all interleavings; on: dynamic partial-order reduction; both: run both and report disagreements")
 	traces := flag.String("traces", "", "comma separated package ids: enumerate all (projection, outcome) pairs without pruning instead of exploring")
 	out := flag.String("out", "", "output file (JSON lines)")
 	flag.Parse()
@@ -146,8 +154,25 @@ func Main() {
 			continue
 		}
 		for _, sc := range Scenarios(info, strings.Split(*fams, ","), *thorough) {
-			res := RunCase(c, info, sc, *max)
-			_ = enc.Encode(res)
+			mode := *por
+			if info.POR && mode == "off" {
+				mode = "on" // large shapes: the interleaving space is only tractable per Mazurkiewicz trace
+			}
+			if info.POR && mode == "both" {
+				mode = "on"
+			}
+			switch mode {
+			case "on":
+				_ = enc.Encode(RunCasePOR(c, info, sc, *max))
+			case "both":
+				full := RunCase(c, info, sc, *max)
+				red := RunCasePOR(c, info, sc, *max)
+				full.PORDiff = Disagreement(full, red)
+				full.PORExecs, full.PORStates = red.Execs, red.States
+				_ = enc.Encode(full)
+			default:
+				_ = enc.Encode(RunCase(c, info, sc, *max))
+			}
 		}
 	}
 }
